@@ -51,7 +51,7 @@ IsOutcome(r) == r.t \in {"str", "err", "int", "bulk", "null", "arr", "eof", "err
 
 RECURSIVE PrefixMatches(_, _, _)
 PrefixMatches(res, vals, k) ==
-  k > Len(vals) \/ (k <= Len(res) /\ res[k] = vals[k] /\ PrefixMatches(res, vals, k + 1))
+  k > Len(vals) \/ (k <= Len(res) /\ res[k] = Lenient(vals[k]) /\ PrefixMatches(res, vals, k + 1))
 
 HostileOK(e) ==
   LET ds == DecStream(e.input) IN
@@ -73,7 +73,7 @@ ChunkedOK(e) ==
   LET ds == DecStream(e.stream) IN
   /\ ds.st = "complete"                          \* the driver sent a valid stream
   /\ Sum(e.chunks, 1) = Len(e.stream)            \* ... split into these reads
-  /\ e.res = ds.vals \o <<Eof>>                  \* exactly those values, in order, then end of stream
+  /\ e.res = LenientSeq(ds.vals) \o <<Eof>>     \* exactly those values, in order, then end of stream
   /\ Len(e.ends) = Len(ds.vals)
   /\ EndsOK(e.stream, e.ends, 1, 1)              \* each value consumed exactly its own bytes
   /\ e.left = 0                                  \* nothing left behind
